@@ -144,6 +144,39 @@ func runC03(c *h.Ctx) {
 		}
 	})
 
+	// the converter is handed the descriptor of a non-struct type and the bare encoding of such a value
+	c.Run("root-values", c.N(2000, 50000), func(cs *h.Case) {
+		sc := gen.GenSchema(cs.R, gen.Cfg{MaxDepth: 2, MaxFields: 6, Typedefs: true})
+		desc, _, err := ParseRoot(sc, thrift.NewDefaultOptions())
+		if err != nil {
+			cs.Viol("t2j:parse-idl", "err", err)
+			return
+		}
+		cs.Info("idl", sc.IDL())
+		f := sc.Root.Fields[cs.R.Intn(len(sc.Root.Fields))]
+		fd := desc.Struct().FieldById(thrift.FieldID(f.ID))
+		if fd == nil {
+			return
+		}
+		v := gen.GenVal(cs.R, f.T, gen.ValCfg{InvalidUTF8: cs.R.Chance(20), NegByteKeys: true}, 0)
+		b := tref.Encode(v)
+		cs.Info("root-type", f.T.String())
+		cs.Info("model", v.String())
+		cs.Info("bytes", hexs(b))
+		o := c03Opts(cs)
+		o.EnableValueMapping = false
+		cs.Info("opts", fmt.Sprintf("%+v", o))
+		before := cs.CoverCount("t2j_ok")
+		c03Run(cs, "root", fd.Type(), f.T, v, b, o, false)
+		if cs.CoverCount("t2j_ok") > before {
+			cs.Cover("t2j_root_value_ok")
+			cs.Cover("t2j_root_value_ok_" + tref.TypeName(f.T.T))
+		} else {
+			cs.Cover("t2j_root_value_not_ok")
+		}
+		cs.Distinct("rv-" + tref.TypeName(f.T.T) + "-" + shapeKey(v)[:min(len(shapeKey(v)), 12)])
+	})
+
 	// strings: every length around the SIMD lanes / page size with an escape-relevant character at every position
 	strSchema := &gen.StructT{Name: "Str", Fields: []*gen.FieldT{
 		{ID: 1, Name: "s", T: &gen.Type{T: tref.STRING}},
